@@ -581,6 +581,11 @@ class _CanonYX(ast.NodeTransformer):
 
     def visit_Subscript(self, n: ast.Subscript):
         self.generic_visit(n)
+        if isinstance(n.value, ast.Tuple) and isinstance(n.slice, ast.Constant) and \
+                isinstance(n.slice.value, int) and \
+                -len(n.value.elts) <= n.slice.value < len(n.value.elts) and \
+                not any(isinstance(x, ast.Starred) for x in n.value.elts):
+            return n.value.elts[n.slice.value]       # (a, b)[1] is b
         if isinstance(n.value, ast.Attribute) and n.value.attr == 'yx' and \
                 isinstance(n.slice, ast.Constant) and n.slice.value in (0, 1):
             return ast.Attribute(n.value.value, 'yx'[n.slice.value], ast.Load())
@@ -592,7 +597,9 @@ class _CanonYX(ast.NodeTransformer):
 
 
 def canon_yx(e: ast.AST) -> ast.AST:
-    if not any(isinstance(n, ast.Attribute) and n.attr == 'yx' for n in ast.walk(e)):
+    if not any((isinstance(n, ast.Attribute) and n.attr == 'yx') or
+               (isinstance(n, ast.Subscript) and isinstance(n.value, ast.Tuple))
+               for n in ast.walk(e)):
         return e
     return ast.fix_missing_locations(_CanonYX().visit(e))
 
